@@ -341,7 +341,7 @@ where
     s.assume(idx < total);
     let got = img_bit_of_word::<E>(be.words[idx / W::NBITS].to_u128(), idx % W::NBITS);
     assert_eq!(got, m.bit(idx), "byte image differs from the canonical stream (padding must be zero)");
-    crate::cover!(s, be.n >= 3, "several words delivered");
+    crate::cover!(s, be.n >= 3 || (W::NBITS >= 64 && be.n >= 1), "several words delivered");
     crate::cover!(s, total > m.wlen, "padding present");
     core::mem::forget(w);
 }
